@@ -352,6 +352,10 @@ func (db *SpecDB) LoadFile(path string) error {
 					if n, err := strconv.Atoi(parts[0]); err == nil && len(parts) == 2 {
 						ev.RecordArgs[n] = specSort(parts[1])
 					}
+					if parts[0] == "res" && len(parts) == 2 {
+						// the (first) result of every call: nthres(ev, k); stored under index -1
+						ev.RecordArgs[-1] = specSort(parts[1])
+					}
 				}
 				if len(ev.RecordArgs) == 0 {
 					ev.RecordArgs[1] = SInt
